@@ -1,6 +1,6 @@
 """C03 — the position key depends on the position alone: structural clauses C03-PAIR, C03-SCRATCH,
 C03-INIT (DESIGN.md §3)."""
-from facts import (norm, show, deep_strip, walk, strip_refs, is_call_to, callee_name, place_fields, guard_conditions,
+from facts import (cmp_op, switch_edge_conds, norm, show, deep_strip, walk, strip_refs, is_call_to, callee_name, place_fields, guard_conditions,
                    static_accesses, mentions_call)
 import gh
 
@@ -23,6 +23,7 @@ HASHED = ("board", "castle_rights", "en_passant_target", "player")
 def run(fx, rep, tier):
     rule_pair(fx, rep)
     rule_scratch(fx, rep)
+    rule_toggle_access(fx, rep)
     rule_init(fx, rep)
 
 
@@ -523,6 +524,155 @@ def rule_scratch(fx, rep):
     rep.rule("C03-SCRATCH", n, 7 + (0 if loop_pieces else 13) + (0 if loop_rights else 5), ok, "from-scratch hash vs incremental toggles")
 
 
+# ---- C03-TOGGLE / C03-ACCESS ---------------------------------------------------------------
+
+
+def rule_toggle_access(fx, rep):
+    """(TOGGLE) each incremental toggle xors exactly its component word(s) into the key, unconditionally (set_en_passant: the
+    old target's word out and the new target's word in; the only admissible shortcut is old == new). (ACCESS) each component
+    accessor addresses its table injectively and in range: evaluated for every combination of its enum / square arguments,
+    the index tuples are pairwise different and inside the table's dimensions, so different (colour, kind, square) /
+    (colour, side) / target squares never share a word."""
+    import itertools
+    import re
+    from facts import decision_paths
+    ok = True
+    n = 0
+
+    def bad(rule, key, msg, b):
+        nonlocal ok
+        ok = False
+        rep.violation(rule, f"{rule}/{key}", msg, {"fn": b.name, "file": b.file, "line": b.line})
+
+    want = {"ZobristHash::toggle_piece_on_square": ("zobrist::piece_on_square", 1), "ZobristHash::toggle_castle_rights": ("zobrist::castle_rights", 1),
+            "ZobristHash::toggle_side_to_play": ("zobrist::side_to_play", 1), "ZobristHash::set_en_passant": ("zobrist::en_passant", 2)}
+    for tn, (acc, cnt) in want.items():
+        b = fx.one(tn)
+        n += 1
+        calls = b.calls_to(acc)
+        switches = [i for i in b.live_blocks() if b.blocks[i]["term"]["k"] == "switch"]
+        good, why = True, ""
+        if len(calls) != cnt:
+            good, why = False, f"calls {acc} {len(calls)} time(s), expected {cnt}"
+        elif switches:
+            # the only harmless shortcut: nothing to do when old and new target are equal
+            conds = []
+            allowed = cnt == 2
+            for i in switches:
+                for (tgt, e, pol, v) in switch_edge_conds(b, i):
+                    conds.append(show(e))
+                    co = cmp_op(deep_strip(e)) if isinstance(deep_strip(e), tuple) else None
+                    sides = {deep_strip(co[1])[:2], deep_strip(co[2])[:2]} if co and co[0] in ("Eq", "Ne") and all(isinstance(deep_strip(x), tuple) for x in co[1:3]) else set()
+                    if sides != {("arg", 2), ("arg", 3)}:
+                        allowed = False
+            if not allowed:
+                good, why = False, f"the key update is conditional on `{conds[0][:80]}`"
+        if good:
+            # every accessor result is xored into self.0: as many xor operations on the key as accessor calls
+            xors = [st for bb, j, st in b.stmts() if st["k"] == "assign" and st.get("rv", {}).get("k") == "binop" and st["rv"]["op"] == "BitXor"]
+            if len(xors) != cnt:
+                good, why = False, f"{len(xors)} xor operation(s) for {cnt} component word(s)"
+            if good and cnt == 2:
+                a1 = [deep_strip(b.expr(t["args"][0], expand_named=True, at=bb)) for bb, t in calls]
+                if a1[0] == a1[1]:
+                    good, why = False, "both component words are taken for the same target"
+        rep.obligation(good)
+        if not good:
+            bad("C03-TOGGLE", tn.split("::")[-1], f"`{tn}`: {why}: the carried key then differs from the recomputed one", b)
+    dom = {"chess::player::Player": 2, "chess::piece::PieceKind": 6, "chess::square::Square": 64, "chess::game::CastleRightsSide": 2,
+           "std::option::Option<chess::square::Square>": 64}
+
+    def ev(e, env):
+        e = deep_strip(e)
+        if not isinstance(e, tuple) or not e:
+            return None
+        if e[0] == "const" and isinstance(e[1], int):
+            return e[1]
+        if e[0] == "arg":
+            return env.get(e[1])
+        if e[0] == "field" and e[2] == "0":
+            return ev(e[1], env)
+        if e[0] == "as":
+            return ev(e[1], env)
+        if e[0] == "cast":
+            return ev(e[1], env)
+        if e[0] == "call" and isinstance(e[1], str) and (e[1].endswith("::array_idx") or e[1].endswith("::idx")) and len(e[2]) == 1:
+            return ev(e[2][0], env)
+        if e[0] == "binop":
+            a, c = ev(e[2], env), ev(e[3], env)
+            if a is None or c is None:
+                return None
+            return {"Add": a + c, "Mul": a * c, "Sub": a - c, "Shl": a << c if c < 64 else None, "BitOr": a | c}.get(e[1].replace("WithOverflow", ""))
+        return None
+    for an in ("zobrist::piece_on_square", "zobrist::castle_rights", "zobrist::en_passant"):
+        b = fx.one(an)
+        tys = [b.local_ty(i) for i in range(1, b.arg_count + 1)]
+        if any(t not in dom for t in tys):
+            rep.notes.append(f"C03-ACCESS: `{an}` has a parameter type this rule does not enumerate; not decided")
+            continue
+        seen = {}
+        undecided = False
+        for conds, ret, last in decision_paths(b, 16):
+            if ret is None:
+                continue
+            r = deep_strip(ret)
+            idxs = []
+            base = None
+            cur = r[1] if isinstance(r, tuple) and r[0] == "deref" else r
+            while isinstance(cur, tuple) and cur and cur[0] in ("call", "cast"):
+                if cur[0] == "cast":
+                    cur = cur[1]
+                    continue
+                if not str(cur[1]).endswith("get_unchecked"):
+                    break
+                idxs.append(cur[2][1])
+                cur = cur[2][0]
+            if isinstance(cur, tuple) and cur and cur[0] == "const?":
+                base = str(cur[1])
+            if base is None:
+                undecided = True
+                break
+            dims = [int(x) for x in re.findall(r";\s*(\d+)\]", base)][::-1]
+            idxs = idxs[::-1]
+            if len(idxs) != len(dims):
+                undecided = True
+                break
+            # argument combinations compatible with this path (Option discriminant)
+            for combo in itertools.product(*[range(dom[t]) for t in tys]):
+                env = {i + 1: v for i, v in enumerate(combo)}
+                skip = False
+                for (ce, val) in conds:
+                    d = deep_strip(ce)
+                    if isinstance(d, tuple) and d[0] == "discr":
+                        # Option argument: this path is the Some-path (1) or the None-path (0); enumerate squares only on Some
+                        if isinstance(val, int) and val == 0 and combo != tuple(0 for _ in combo):
+                            skip = True
+                if skip:
+                    continue
+                vals = tuple(ev(ix, env) for ix in idxs)
+                if any(v is None for v in vals):
+                    undecided = True
+                    break
+                n += 1
+                in_range = all(0 <= v < d for v, d in zip(vals, dims))
+                key = (base, vals)
+                clash = seen.get(key)
+                good = in_range and (clash is None or clash == combo)
+                rep.obligation(good)
+                if not good:
+                    bad("C03-ACCESS", an.split("::")[-1], f"`{an}`: arguments {combo} address {base}{list(vals)}" + (f", the same word as arguments {clash}" if clash is not None and clash != combo else ", outside the table") +
+                        ": two different components share a key word, so positions differing in exactly those components share a key", b)
+                    undecided = True  # stop after the first report
+                    break
+                seen[key] = combo
+            if undecided:
+                break
+        if undecided and ok:
+            rep.notes.append(f"C03-ACCESS: `{an}` is not a chain of indexed reads this rule can evaluate; not decided")
+    rep.rule("C03-TOGGLE", 4, 4, ok, "toggles xor exactly their component words, unconditionally")
+    rep.rule("C03-ACCESS", n, 100, ok, "component accessors address their tables injectively and in range")
+
+
 # ---- C03-INIT ------------------------------------------------------------------------------
 
 
@@ -562,6 +712,12 @@ def rule_init(fx, rep):
 G = "src/chess/game.rs"
 Z = "src/chess/zobrist.rs"
 MUTANTS = [
+    {"name": "benign: set_en_passant returns early when the target does not change", "benign": True,
+     "edits": [("src/chess/zobrist.rs", "        self.0 ^= en_passant(previous_square);\n        self.0 ^= en_passant(square);", "        if previous_square == square {\n            return;\n        }\n        self.0 ^= en_passant(previous_square);\n        self.0 ^= en_passant(square);")]},
+    {"name": "set_en_passant skips when both targets are present (seed C03-4a)", "expect": "C03-TOGGLE/set_en_passant",
+     "edits": [("src/chess/zobrist.rs", "        self.0 ^= en_passant(previous_square);\n        self.0 ^= en_passant(square);", "        if previous_square.is_some() == square.is_some() {\n            return;\n        }\n        self.0 ^= en_passant(previous_square);\n        self.0 ^= en_passant(square);")]},
+    {"name": "castling words addressed without a stride (seed C03-4b shape)", "expect": "C03-ACCESS/castle_rights",
+     "edits": [("src/chess/zobrist.rs", "        components::CASTLING\n            .get_unchecked(player.array_idx())\n            .get_unchecked(side.array_idx())", "        components::CASTLING\n            .get_unchecked(side.array_idx())\n            .get_unchecked(side.array_idx())")]},
     {"name": "constructor drops an uncapturable en-passant target after hashing (seed C03-3)", "expect": "C03-PAIR/wholesale/Game::from_state",
      "edits": [("src/chess/game.rs", "        game.zobrist = zobrist::hash(&game);\n", "        game.zobrist = zobrist::hash(&game);\n\n        if let Some(target) = game.en_passant_target {\n            if !(target.bb().backward(player).west() & game.board.pawns(player)).any() {\n                game.en_passant_target = None;\n            }\n        }\n")]},
     {"name": "null move forgets side toggle", "expect": "C03-PAIR/side",
